@@ -5,6 +5,7 @@ from harness import core, tlaparse
 from harness.drivers import c08
 
 TRACE = "TraceCFG"
+BATCH = 6000         # about 36 events per case, each with three grammar projections
 ASSUMPTIONS = c08.ASSUMPTIONS + [
     "pairs of grammars drawn from the TLC-generated family (every grammar paired with a rotating partner and with itself)",
 ]
